@@ -220,8 +220,86 @@ func relatedTopics(a common.Address) []common.Hash {
 }
 
 type valuePool struct {
-	addrs []common.Address
-	tops  []common.Hash
+	addrs   []common.Address
+	tops    []common.Hash
+	special []common.Hash // the corpus topics in tops
+}
+
+// keyCorpus: addresses and topics found by search whose three bloom positions are in a special relation:
+// two positions coincide (the bloom then has only two bits for the key), a position is 0 or 2047, two
+// positions are neighbouring bits or lie in the same byte.  The positions are computed here from
+// crypto.Keccak256 directly (not through bloom9 / calcBloomIndexes).
+type keyCorpus struct {
+	addrs map[string][]common.Address
+	tops  map[string][]common.Hash
+	tried int
+}
+
+var corpusClasses = []string{"coincide", "pos0", "pos2047", "adjacent", "samebyte"}
+var corpus *keyCorpus
+
+func bloomPositions(key []byte) [3]uint {
+	h := crypto.Keccak256(key)
+	var p [3]uint
+	for k := 0; k < 3; k++ {
+		p[k] = (uint(h[2*k])<<8 | uint(h[2*k+1])) & 2047
+	}
+	return p
+}
+
+func keyClasses(key []byte) []string {
+	p := bloomPositions(key)
+	var out []string
+	has := map[string]bool{}
+	add := func(c string) {
+		if !has[c] {
+			has[c] = true
+			out = append(out, c)
+		}
+	}
+	for i := 0; i < 3; i++ {
+		if p[i] == 0 {
+			add("pos0")
+		}
+		if p[i] == 2047 {
+			add("pos2047")
+		}
+		for j := i + 1; j < 3; j++ {
+			switch {
+			case p[i] == p[j]:
+				add("coincide")
+			case p[i]+1 == p[j] || p[j]+1 == p[i]:
+				add("adjacent")
+			case p[i]/8 == p[j]/8:
+				add("samebyte")
+			}
+		}
+	}
+	return out
+}
+
+// searchCorpus hashes n candidate keys drawn from the seed and keeps up to 4 per class and kind
+func searchCorpus(r *vh.RNG, n int) *keyCorpus {
+	kc := &keyCorpus{addrs: map[string][]common.Address{}, tops: map[string][]common.Hash{}, tried: n}
+	for i := 0; i < n; i++ {
+		if i%2 == 0 {
+			var a common.Address
+			copy(a[:], r.Bytes(20))
+			for _, c := range keyClasses(a[:]) {
+				if len(kc.addrs[c]) < 4 {
+					kc.addrs[c] = append(kc.addrs[c], a)
+				}
+			}
+		} else {
+			t := common.BytesToHash(r.Bytes(32))
+			for _, c := range keyClasses(t[:]) {
+				if len(kc.tops[c]) < 4 {
+					kc.tops[c] = append(kc.tops[c], t)
+				}
+			}
+		}
+	}
+	return kc
 }
 
 // sharedPool: nCore random addresses plus the zero address and a small one; topics are the
@@ -230,9 +308,23 @@ type valuePool struct {
 func sharedPool(r *vh.RNG, nCore int) valuePool {
 	var p valuePool
 	p.addrs = append(p.addrs, common.BytesToAddress([]byte{0x01, 0x00}), common.Address{})
+	// corpus addresses first (two with coinciding positions, one per other class), then random ones
+	var spec []common.Address
+	if corpus != nil {
+		for ci, cl := range corpusClasses {
+			for k, a := range corpus.addrs[cl] {
+				if k < 1 || (ci == 0 && k < 2) {
+					spec = append(spec, a)
+				}
+			}
+		}
+	}
 	for i := 0; i < nCore; i++ {
 		var a common.Address
 		copy(a[:], r.Bytes(20))
+		if i < len(spec) && i < nCore-2 {
+			a = spec[i]
+		}
 		p.addrs = append(p.addrs, a)
 	}
 	for i, a := range p.addrs {
@@ -254,6 +346,17 @@ func sharedPool(r *vh.RNG, nCore int) valuePool {
 	near := p.tops[len(p.tops)-1]
 	near[31] ^= 1
 	p.tops = append(p.tops, near, common.BytesToHash([]byte{1}))
+	if corpus != nil {
+		for ci, cl := range corpusClasses {
+			for k, t := range corpus.tops[cl] {
+				if k < 1 || (ci == 0 && k < 2) {
+					p.special = append(p.special, t)
+				}
+			}
+		}
+		// just before the last three (the bloom-level relation cases use those as plain topics)
+		p.tops = append(p.tops[:len(p.tops)-4], append(append([]common.Hash(nil), p.special...), p.tops[len(p.tops)-4:]...)...)
+	}
 	return p
 }
 
@@ -333,7 +436,8 @@ type world struct {
 	sender   common.Address
 	sign     func(nonce uint64, to common.Address) *types.Transaction
 	rng      *vh.RNG
-	loaded   int // blocks the model currently holds that agree with w.headers
+	special  []common.Hash // corpus topics of the pool (special bloom positions)
+	loaded   int           // blocks the model currently holds that agree with w.headers
 }
 
 func (w *world) head() uint64 { return uint64(len(w.headers) - 1) }
@@ -365,6 +469,19 @@ func buildWorld(c *vh.Ctx, m *vh.Model, n int, density int, gap func(bn uint64) 
 		6: {logs: []scriptLog{tl(lpad(E[0]), lpad(E[2]), rt(), lpad(E[0]))}},                                          // 4 topics naming other emitters, one twice
 		7: {calls: []common.Address{E[0], E[2]}, logs: []scriptLog{tl(lpad(E[0])), tl(lpad(E[7]), lpad(E[7]))}},       // emitters first, their names after
 	}
+	if sp := pool.special; len(sp) > 0 {
+		var s8, s9 script
+		for i, t := range sp { // every corpus topic as topic 0 (at most 6 logs), and at positions 1..3
+			if i < 6 {
+				s8.logs = append(s8.logs, tl(t))
+			}
+		}
+		for i := 0; i+1 < len(sp); i += 2 {
+			s9.logs = append(s9.logs, tl(rt(), sp[i], sp[i+1], sp[(i+2)%len(sp)]))
+		}
+		scripts = append(scripts, s8, s9)
+	}
+	w.special = pool.special
 	for len(scripts) < len(emitters) {
 		var sc script
 		for j := 1 + r.Intn(3); j > 0; j-- {
@@ -1390,6 +1507,11 @@ func (w *world) historyQueries(bk *backend, label string, forkAt int64) {
 			w.runQuery(bk, forkAt-100, forkAt+300, criteria{tops: [][]common.Hash{{lpad(E[i])}}}, label+"/topic@0")
 		}
 	}
+	for i, t := range w.special {
+		if i < 4 {
+			w.runQuery(bk, 0, forkAt+300, criteria{tops: [][]common.Hash{{t}}}, label+"/corpus-topic@0")
+		}
+	}
 	w.runQuery(bk, 0, -1, criteria{addrs: []common.Address{E[2], E[0]}}, label+"/whole-chain")
 	w.runQuery(bk, 0, -1, criteria{tops: [][]common.Hash{nil, {lpad(E[2]), lpad(E[0])}}}, label+"/whole-chain")
 	w.runQuery(bk, forkAt-5, forkAt+5, criteria{}, label+"/around-fork")
@@ -1620,6 +1742,15 @@ func bloomLevel(c *vh.Ctx, m *vh.Model) {
 	for _, t := range p.tops {
 		items = append(items, t.Bytes())
 	}
+	for _, cl := range corpusClasses { // the whole searched corpus: keys with coinciding / extreme / neighbouring positions
+		for _, a := range corpus.addrs[cl] {
+			items = append(items, a.Bytes())
+		}
+		for _, t := range corpus.tops[cl] {
+			items = append(items, t.Bytes())
+		}
+		c.Count(fmt.Sprintf("corpus/%s/addresses=%d,topics=%d", cl, len(corpus.addrs[cl]), len(corpus.tops[cl])))
+	}
 	for i := c.Scale(20, 400); i > 0; i-- {
 		items = append(items, r.Bytes([]int{20, 32, 32, 20, 0, 1, 33}[r.Intn(7)]))
 	}
@@ -1815,6 +1946,99 @@ func (w *world) prodQueries(size, got uint64, r *vh.RNG) {
 				b, e = 0, hi
 			}
 			w.runMatcher(bk, b, e, cr)
+		}
+	}
+}
+
+// ---------------------------------------------------------------- common/bitutil compression (how the rows are stored)
+
+// encLen: the length of the sparse-bitset encoding, re-stated (nil for all-zero data; a single byte stays;
+// otherwise encoding of the non-zero bitmap followed by the non-zero bytes)
+func encLen(d []byte) int {
+	nz := 0
+	for _, b := range d {
+		if b != 0 {
+			nz++
+		}
+	}
+	if len(d) == 0 || nz == 0 {
+		return 0
+	}
+	if len(d) == 1 {
+		return 1
+	}
+	bm := make([]byte, (len(d)+7)/8)
+	for i, b := range d {
+		if b != 0 {
+			bm[i/8] |= 1 << uint(7-i%8)
+		}
+	}
+	return encLen(bm) + nz
+}
+
+// DecompressBytes(CompressBytes(d), len d) == d: exhaustive for short vectors, and for the row lengths in use a
+// sweep over the number and placement of non-zero bytes that crosses the point where the encoding becomes as
+// long as the data (CompressBytes then stores the data itself, DecompressBytes recognises that by the length)
+func bitutilLevel(c *vh.Ctx) {
+	r := c.Rng.Fork()
+	check := func(d []byte, cls string) {
+		out := bitutil.CompressBytes(d)
+		dec, err := bitutil.DecompressBytes(out, len(d))
+		rel := "shorter"
+		if el := encLen(d); el == len(d) {
+			rel = "equal"
+		} else if el > len(d) {
+			rel = "longer"
+		}
+		key := ""
+		if rel != "shorter" {
+			key = "bu-" + vh.Hex(d)
+		}
+		c.Eval(fmt.Sprintf("bitutil/%s/encoding-%s-than-data", cls, rel), key)
+		if err != nil || !bytes.Equal(dec, d) || len(out) > len(d) {
+			violate(c, "bitutil-roundtrip/"+vh.Hex(d), "DecompressBytes(CompressBytes(d), len(d)) != d (or the stored form is longer than d)",
+				map[string]string{"data": vh.Hex(d), "compressed": vh.Hex(out), "decompressed": vh.Hex(dec), "error": fmt.Sprint(err)})
+		}
+	}
+	for a := 0; a < 256; a++ {
+		check([]byte{byte(a)}, "len1-exhaustive")
+		for b := 0; b < 256; b += 1 + 14*(a%2) { // every a with a coarser b on odd a: 256*~137 vectors
+			check([]byte{byte(a), byte(b)}, "len2")
+		}
+	}
+	for _, L := range []int{3, 8, 9, 16, 17} { // every zero/non-zero pattern (up to 2^12 of them)
+		n := 1 << uint(min(L, 12))
+		for pat := 0; pat < n; pat++ {
+			d := make([]byte, L)
+			for i := 0; i < L && i < 12; i++ {
+				if pat>>uint(i)&1 == 1 {
+					d[L-1-i] = byte(1 + (pat*7+i)%255)
+				}
+			}
+			check(d, fmt.Sprintf("len%d-patterns", L))
+		}
+	}
+	for _, L := range []int{1, 2, 8, 32, 64, 256, 512} { // the row lengths of section sizes 8..4096
+		for k := 0; k <= L; k++ {
+			for place := 0; place < 4; place++ {
+				d := make([]byte, L)
+				for j := 0; j < k; j++ {
+					pos := j
+					switch place {
+					case 1:
+						pos = L - 1 - j
+					case 2:
+						pos = (j * 2) % L
+						if j*2 >= L {
+							pos = (j*2 + 1) % L
+						}
+					case 3:
+						pos = r.Intn(L)
+					}
+					d[pos] = byte(1 + r.Intn(255))
+				}
+				check(d, fmt.Sprintf("len%d-density", L))
+			}
 		}
 	}
 }
@@ -2189,10 +2413,17 @@ func main() {
 		c.Note("stage %s: %.1fs", name, time.Since(t0).Seconds())
 		t0 = time.Now()
 	}
+	corpus = searchCorpus(c.Rng.Fork(), 12000)
+	for _, cl := range corpusClasses {
+		if len(corpus.addrs[cl]) == 0 || len(corpus.tops[cl]) == 0 {
+			c.Fatal("key corpus search found no %s address/topic in %d candidates", cl, corpus.tried)
+		}
+	}
 	bloomLevel(c, m)
 	stage("bloom-level")
 	generatorLevel(c, m)
-	stage("generator-level")
+	bitutilLevel(c)
+	stage("generator-level + bitutil")
 	{
 		rr := c.Rng.Fork()
 		for i := 0; i < c.Scale(6, 30); i++ {
